@@ -81,6 +81,12 @@ def _normalise_name(name: str) -> str:
     return '' if name == '.' else name
 
 
+def _split_path(path: str) -> list[str]:
+    """Split a relative path into the folders and filename, for either kind of slash."""
+    path = posixpath.normpath(path.replace('\\', '/'))
+    return [] if path == '.' else path.split('/')
+
+
 def _is_inside(filename: str, folder: str) -> bool:
     """Check if a file is located in the folder or one of its subfolders.
 
@@ -401,10 +407,13 @@ class FileSystemChain(FileSystem[File[FileSystem[Any]]]):
         """
         for sys, prefix in self.systems:
             full_folder = os.path.join(prefix, folder).replace('\\', '/')
+            # Make the paths relative by dropping as many folders as the prefix has. The filesystem
+            # may spell them in another case, so relpath() would not recognise them.
+            prefix_len = len(_split_path(prefix))
             for file in sys.walk_folder(full_folder):
                 yield File(
                     self,
-                    os.path.relpath(file.path, prefix).replace('\\', '/'),
+                    '/'.join(_split_path(file.path)[prefix_len:]),
                     file,
                 )
 
